@@ -118,11 +118,11 @@ func loadRules() (irr []irregular, uninfl []string, err error) {
 // ---------------------------------------------------------------- sequential part
 
 type Case struct {
-	F      int    `json:"f"` // 0 Pluralize, 1 Singularize
-	S      string `json:"s_quoted,omitempty"`
-	Prefix string `json:"prefix_quoted,omitempty"`
-	Word   string `json:"word,omitempty"`
-	Seq    []Op   `json:"fresh_process_sequence,omitempty"`
+	F      int        `json:"f"` // 0 Pluralize, 1 Singularize
+	S      string     `json:"s_quoted,omitempty"`
+	Prefix string     `json:"prefix_quoted,omitempty"`
+	Word   string     `json:"word,omitempty"`
+	Seq    []Op       `json:"fresh_process_sequence,omitempty"`
 	Sched  *SchedCase `json:"interleaving,omitempty"`
 }
 
@@ -293,11 +293,11 @@ var seqOps = []Op{
 // ---------------------------------------------------------------- interleavings
 
 type SchedCase struct {
-	Scenario string  `json:"scenario"`
-	Warm     []Op    `json:"pre_warmed_cache,omitempty"`
-	Threads  [][]Op  `json:"threads"`
-	Choices  []int   `json:"schedule_choices,omitempty"`
-	Bound    int     `json:"deviation_bound"`
+	Scenario string `json:"scenario"`
+	Warm     []Op   `json:"pre_warmed_cache,omitempty"`
+	Threads  [][]Op `json:"threads"`
+	Choices  []int  `json:"schedule_choices,omitempty"`
+	Bound    int    `json:"deviation_bound"`
 }
 
 var scenarios = []SchedCase{
@@ -380,7 +380,7 @@ func exploreScenario(c *core.Ctx, sc SchedCase) {
 		}
 	}
 	maxPoints := 0
-	n := core.Explore(c, core.ExploreOpts{Bound: sc.Bound, ShardDepth: 3}, func(ch *core.Chooser, owned bool) {
+	core.Explore(c, core.ExploreOpts{Bound: sc.Bound, ShardDepth: 3}, func(ch *core.Chooser, owned bool) {
 		results, s := execute(sc, func(n int) int { return ch.Choose(n) })
 		if s.Points > maxPoints {
 			maxPoints = s.Points
@@ -390,12 +390,12 @@ func exploreScenario(c *core.Ctx, sc SchedCase) {
 		}
 		c.Eval(1)
 		c.Trace(1)
+		c.Count("schedules:"+sc.Scenario, 1)
 		c.Trans(s.Points)
 		c.State(sc.Scenario + "|" + strings.Join(s.Trace, ","))
 		c.Nontrivial(sc.Scenario + fmt.Sprint(ch.Trace()))
 		judge(c, sc, ch.Trace(), results, s)
 	})
-	c.Count("schedules:"+sc.Scenario, int(n))
 	if maxPoints < 4 {
 		c.Internal("scenario %q reached only %d scheduling points: the sync seam is not in effect", sc.Scenario, maxPoints)
 	}
